@@ -39,20 +39,19 @@ structure BackStep (s t : State) : Prop where
   cur : t.cur = s.cur
   active : t.active = s.active
   iteration : t.iteration = s.iteration
-  blind : t.blind = s.blind
   evsize : t.evsize = s.evsize
   out : ∃ l, t.out = s.out ++ l ∧ (∀ e ∈ l, e.isBack = true) ∧
     (t.dead = false → s.dead = false ∧ ∀ e ∈ l, e.isFatal = false)
 
 theorem BackStep.rfl' (s : State) : BackStep s s :=
-  ⟨rfl, fun _ => rfl, fun _ => rfl, fun _ => rfl, rfl, rfl, rfl, rfl, rfl, rfl, rfl, [], by simp, by simp, by simp⟩
+  ⟨rfl, fun _ => rfl, fun _ => rfl, fun _ => rfl, rfl, rfl, rfl, rfl, rfl, rfl, [], by simp, by simp, by simp⟩
 
 theorem BackStep.trans {a b c : State} (f : BackStep a b) (g : BackStep b c) : BackStep a c := by
   obtain ⟨l1, h1, n1, d1⟩ := f.out
   obtain ⟨l2, h2, n2, d2⟩ := g.out
   refine ⟨g.be.trans f.be, fun x => (g.ev x).trans (f.ev x), fun x => (g.rev x).trans (f.rev x),
     fun x => (g.added x).trans (f.added x), g.hooks.trans f.hooks, g.handling.trans f.handling,
-    g.cur.trans f.cur, g.active.trans f.active, g.iteration.trans f.iteration, g.blind.trans f.blind,
+    g.cur.trans f.cur, g.active.trans f.active, g.iteration.trans f.iteration,
     g.evsize.trans f.evsize, l1 ++ l2, by rw [h2, h1, List.append_assoc], ?_, ?_⟩
   · intro e he
     rcases List.mem_append.1 he with h | h
@@ -68,7 +67,7 @@ theorem BackStep.trans {a b c : State} (f : BackStep a b) (g : BackStep b c) : B
     · exact hl2 e h
 
 theorem backStep_abort (s : State) (w : String) : BackStep s (abort s w) :=
-  ⟨rfl, fun _ => rfl, fun _ => rfl, fun _ => rfl, rfl, rfl, rfl, rfl, rfl, rfl, rfl, [.abort w], rfl,
+  ⟨rfl, fun _ => rfl, fun _ => rfl, fun _ => rfl, rfl, rfl, rfl, rfl, rfl, rfl, [.abort w], rfl,
     by simp [Ev.isBack], by simp [abort]⟩
 
 /-- a record update that touches only the poller's bookkeeping and slot indices -/
@@ -76,7 +75,7 @@ theorem backStep_book (s : State) (chans : Nat → Chan) (cmap) (pollfds) (kerne
     (h : ∀ x, (chans x).events = (s.chans x).events ∧ (chans x).revents = (s.chans x).revents ∧
       (chans x).added = (s.chans x).added) :
     BackStep s { s with chans := chans, cmap := cmap, pollfds := pollfds, kernel := kernel } :=
-  ⟨rfl, fun x => (h x).1, fun x => (h x).2.1, fun x => (h x).2.2, rfl, rfl, rfl, rfl, rfl, rfl, rfl, [],
+  ⟨rfl, fun x => (h x).1, fun x => (h x).2.1, fun x => (h x).2.2, rfl, rfl, rfl, rfl, rfl, rfl, [],
     by simp, by simp, by simp⟩
 
 theorem backStep_setIndex (s : State) (c : Nat) (i : Int) : BackStep s (setIndex s c i) := by
@@ -88,12 +87,12 @@ theorem backStep_setCmap (s : State) (fd : Int) (v) : BackStep s (setCmap s fd v
 
 theorem backStep_emit (s : State) (e : Ev) (hb : e.isBack = true) (hf : e.isFatal = false) :
     BackStep s (emit s e) :=
-  ⟨rfl, fun _ => rfl, fun _ => rfl, fun _ => rfl, rfl, rfl, rfl, rfl, rfl, rfl, rfl, [e], rfl,
+  ⟨rfl, fun _ => rfl, fun _ => rfl, fun _ => rfl, rfl, rfl, rfl, rfl, rfl, rfl, [e], rfl,
     by simpa using hb, by simpa [emit] using fun h => ⟨h, hf⟩⟩
 
 theorem backStep_die (s : State) (e : Ev) (hb : e.isBack = true) :
     BackStep s { emit s e with dead := true } :=
-  ⟨rfl, fun _ => rfl, fun _ => rfl, fun _ => rfl, rfl, rfl, rfl, rfl, rfl, rfl, rfl, [e], rfl,
+  ⟨rfl, fun _ => rfl, fun _ => rfl, fun _ => rfl, rfl, rfl, rfl, rfl, rfl, rfl, [e], rfl,
     by simpa using hb, by simp⟩
 
 theorem backStep_kernel (s : State) (k : Int → Option Nat) : BackStep s { s with kernel := k } :=
@@ -168,7 +167,9 @@ theorem backStep_epollUpdate (s : State) (c : Nat) : BackStep s (epollUpdate s c
   · split
     · split
       · exact backStep_abort _ _
-      · exact ((backStep_setCmap s _ _).trans (backStep_setIndex _ _ _)).trans (backStep_ctl _ _ _)
+      · split
+        · exact (backStep_setCmap s _ _).trans (backStep_setIndex _ _ _)
+        · exact ((backStep_setCmap s _ _).trans (backStep_setIndex _ _ _)).trans (backStep_ctl _ _ _)
     · split
       · exact backStep_abort _ _
       · split
@@ -270,7 +271,6 @@ structure OpStep (s t : State) (c : Nat) (k : OpKind) : Prop where
   active : t.active = s.active
   iteration : t.iteration = s.iteration
   evsize : t.evsize = s.evsize
-  blind : t.blind = (s.blind || (k.isUpdate && blindUpdate s c k))
   ev : ∀ x, (t.chans x).events = if x = c then opEvents k (s.chans c).events else (s.chans x).events
   rev : ∀ x, (t.chans x).revents = if x = c then opRevents k (s.chans c).revents else (s.chans x).revents
   added : ∀ x, (t.chans x).added = if x = c then opAdded k else (s.chans x).added
@@ -283,7 +283,6 @@ structure OpStep (s t : State) (c : Nat) (k : OpKind) : Prop where
 theorem opStep_of {s p b : State} {c : Nat} {k : OpKind}
     (hbe : p.be = s.be) (hh : p.hooks = s.hooks) (hha : p.handling = s.handling) (hc : p.cur = s.cur)
     (hact : p.active = s.active) (hit : p.iteration = s.iteration) (hes : p.evsize = s.evsize)
-    (hbl : p.blind = (s.blind || (k.isUpdate && blindUpdate s c k)))
     (hev : ∀ x, (p.chans x).events = if x = c then opEvents k (s.chans c).events else (s.chans x).events)
     (hrev : ∀ x, (p.chans x).revents = if x = c then opRevents k (s.chans c).revents else (s.chans x).revents)
     (hadd : ∀ x, (p.chans x).added = if x = c then opAdded k else (s.chans x).added)
@@ -295,14 +294,14 @@ theorem opStep_of {s p b : State} {c : Nat} {k : OpKind}
   | true =>
     simp only [if_true]
     refine ⟨hb.be.trans hbe, hb.hooks.trans hh, hb.handling.trans hha, hb.cur.trans hc, hb.active.trans hact,
-      hb.iteration.trans hit, hb.evsize.trans hes, hb.blind.trans hbl, fun x => (hb.ev x).trans (hev x),
+      hb.iteration.trans hit, hb.evsize.trans hes, fun x => (hb.ev x).trans (hev x),
       fun x => (hb.rev x).trans (hrev x), fun x => (hb.added x).trans (hadd x), l, hlb, ?_, ?_⟩
     · intro h; rw [hbd] at h; exact absurd h (by simp)
     · intro _; rw [hl, hout]
   | false =>
     simp only [Bool.false_eq_true, if_false]
     refine ⟨hb.be.trans hbe, hb.hooks.trans hh, hb.handling.trans hha, hb.cur.trans hc, hb.active.trans hact,
-      hb.iteration.trans hit, hb.evsize.trans hes, hb.blind.trans hbl, fun x => (hb.ev x).trans (hev x),
+      hb.iteration.trans hit, hb.evsize.trans hes, fun x => (hb.ev x).trans (hev x),
       fun x => (hb.rev x).trans (hrev x), fun x => (hb.added x).trans (hadd x), l, hlb, ?_, ?_⟩
     · intro _
       refine ⟨(hla hbd).2, ?_⟩
@@ -314,8 +313,7 @@ theorem applyOp_opStep {s : State} (hd : s.dead = false) {c : Nat} {k : OpKind} 
   cases hk : k.isUpdate with
   | true =>
     rw [applyOp_update hd hk]
-    refine opStep_of (p := setInterest s c k) rfl rfl rfl rfl rfl rfl rfl ?_ ?_ ?_ ?_ rfl (backStep_updateChannel _ c)
-    · simp [setInterest, hk]
+    refine opStep_of (p := setInterest s c k) rfl rfl rfl rfl rfl rfl rfl ?_ ?_ ?_ rfl (backStep_updateChannel _ c)
     · intro x; by_cases hx : x = c
       · subst hx; cases k <;> simp_all [setInterest, opEvents, OpKind.isUpdate]
       · simp [setInterest, hx]
@@ -330,8 +328,7 @@ theorem applyOp_opStep {s : State} (hd : s.dead = false) {c : Nat} {k : OpKind} 
     | remove =>
       have hr : removeOk s c := hacc
       rw [applyOp_remove hd hr]
-      refine opStep_of (p := setChan s c { s.chans c with added := false }) rfl rfl rfl rfl rfl rfl rfl ?_ ?_ ?_ ?_ rfl (backStep_removeChannel _ c)
-      · simp [setChan, OpKind.isUpdate]
+      refine opStep_of (p := setChan s c { s.chans c with added := false }) rfl rfl rfl rfl rfl rfl rfl ?_ ?_ ?_ rfl (backStep_removeChannel _ c)
       · intro x; by_cases hx : x = c
         · subst hx; simp [setChan, opEvents, newEvents]
         · simp [setChan, hx]
@@ -344,8 +341,7 @@ theorem applyOp_opStep {s : State} (hd : s.dead = false) {c : Nat} {k : OpKind} 
     | recreate =>
       have hr : recreateOk s c := hacc
       rw [applyOp_recreate hd hr]
-      refine opStep_of (p := setChan s c {}) rfl rfl rfl rfl rfl rfl rfl ?_ ?_ ?_ ?_ rfl (BackStep.rfl' _)
-      · simp [setChan, OpKind.isUpdate]
+      refine opStep_of (p := setChan s c {}) rfl rfl rfl rfl rfl rfl rfl ?_ ?_ ?_ rfl (BackStep.rfl' _)
       · intro x; by_cases hx : x = c
         · subst hx; simp [setChan, opEvents]
         · simp [setChan, hx]
@@ -380,11 +376,5 @@ theorem applyOp_handling (s : State) (c k) : (applyOp s c k).handling = s.handli
   · rw [h]
   · rw [h]; rfl
   · exact h.handling
-
-theorem applyOp_blind_mono (s : State) (c k) (h : (applyOp s c k).blind = false) : s.blind = false := by
-  rcases applyOp_cases s c k with ⟨_, h1⟩ | ⟨_, _, h1⟩ | ⟨_, _, h1⟩
-  · rw [h1] at h; exact h
-  · rw [h1] at h; exact h
-  · rw [h1.blind, Bool.or_eq_false_iff] at h; exact h.1
 
 end MuduoVerif.Poller
